@@ -321,11 +321,19 @@ def rule_pins_follow(chk, prog):
     # first pass: functions with a complete pin-update loop
     def has_loop(f, after_ids):
         g = CFG(f)
+        # the pins may be walked in the set itself or in a local copy of the whole set (`std::vector<..> pins(set.begin(), set.end())`:
+        # the set's own order is being rewritten by transformConnectionPinPositions)
+        whole = ["m_connection_pins"]
+        for d in f.nodes():
+            if d.get("k") == "VarDecl" and d.get("init") is not None and d.get("name"):
+                a = [norm(x) for x in (strip(d["init"]) or {}).get("ch", [])]
+                if len(a) >= 2 and "m_connection_pins.begin()" in a[0] and "m_connection_pins.end()" in a[1]:
+                    whole.append(d["name"])
         for lp in [n for n in f.nodes() if n.get("k") == "ForStmt"]:
             ini = lp.get("init")
-            if ini is None or ini.get("k") != "DeclStmt" or "m_connection_pins.begin()" not in norm(ini["decls"][0].get("init")):
+            if ini is None or ini.get("k") != "DeclStmt" or not any(w + ".begin()" in norm(ini["decls"][0].get("init")) for w in whole):
                 continue
-            if "m_connection_pins.end()" not in norm(lp.get("cond")):
+            if not any(w + ".end()" in norm(lp.get("cond")) for w in whole):
                 continue
             ups = [c["id"] for c in walk(lp["body"]) if c.get("cname", "").startswith("Avoid::ShapeConnectionPin::updatePosition")]
             if not ups or g.iteration_can_skip(lp, ups) is not None:
